@@ -13,6 +13,9 @@ package basestreamseeder
 // Not decided here: the order and contents of the responses (they are produced by the application's ForEachItem
 // callback through closures), the done marker, the pending-memory bound (another goroutine releases it).
 //@ ghost gSendN int
+//@ // gThrottleN counts the calls of the pending-memory throttle; gLastEnq is its value at the latest hand-over of a response
+//@ ghost gThrottleN int
+//@ ghost gLastEnq int
 //@ ghost gSendSession int
 //@
 //@ funcfield Callbacks.ForEachItem
@@ -49,6 +52,8 @@ package basestreamseeder
 //@
 //@ func (*BaseSeeder).waitPendingResponsesBelowLimit
 //@   requires s != nil
+//@   modifies gThrottleN
+//@   ghost gThrottleN = old(gThrottleN) + 1
 //@   loop 1 invariant true
 //@
 //@ // the key filter handed to ForEachItem: remembers the last key below the session's stop
@@ -72,19 +77,23 @@ package basestreamseeder
 //@   ensures  gSendN == old(gSendN) + 1 && gSendSession == resp.SessionID
 //@
 //@ func (*BaseSeeder).readerLoop
-//@   requires seedinv(s)
+//@   requires seedinv(s) && gLastEnq <= gThrottleN
 //@   interference s.done, s.pendingResponsesSize
-//@   modifies s.sessions[*], s.peerSessions[*], s.sessionsCounter, s.pendingResponsesSize, s.done, allelems(uint32), gIncArg, gIncRes
-//@   loop 1 modifies s.sessions[*], s.peerSessions[*], s.sessionsCounter, s.pendingResponsesSize, s.done, allelems(uint32), gIncArg, gIncRes
+//@   modifies s.sessions[*], s.peerSessions[*], s.sessionsCounter, s.pendingResponsesSize, s.done, allelems(uint32), gIncArg, gIncRes, gThrottleN, gLastEnq
+//@   loop 1 modifies s.sessions[*], s.peerSessions[*], s.sessionsCounter, s.pendingResponsesSize, s.done, allelems(uint32), gIncArg, gIncRes, gThrottleN, gLastEnq
+//@   loop 1 invariant [thr] gLastEnq <= gThrottleN
 //@   loop 1 invariant seedinv(s)
 //@   loop 1 hint assert [resumable] forall(k sessionIDAndPeer, iterold(has(s.sessions, k)) && !has(s.sessions, k) ==> !has(s.peerSessions, k.peer) || (s.peerSessions[k.peer] != iterold(s.peerSessions[k.peer]) && iterold(len(s.peerSessions[k.peer])) > 2))
 //@   loop 2 modifies s.sessions[*]
 //@   loop 2 invariant seedinv(s) && 0 <= _k && _k <= len(_range)
 //@   loop 2 invariant [onlypeer] forall(k sessionIDAndPeer, atentry(has(s.sessions, k)) && !has(s.sessions, k) ==> k.peer == peerID)
+//@   at call workers.Workers).Enqueue[1] requires [throttled] gThrottleN > gLastEnq
+//@   at call workers.Workers).Enqueue[1] ghost gLastEnq = gThrottleN after
 //@   at call workers.Workers).Enqueue[1] requires [sender] session.senderI == s.sessions[mk("sessionIDAndPeer", op.request.Session.ID, op.peer.ID)].senderI
 //@   at call workers.Workers).Enqueue[1] requires [cursor] session.next == gIncRes && gIncArg == lastKey
 //@   at call workers.Workers).Enqueue[1] requires [donemark] resp.Done == session.done && resp.SessionID == op.request.Session.ID && has(s.sessions, mk("sessionIDAndPeer", op.request.Session.ID, op.peer.ID)) && s.sessions[mk("sessionIDAndPeer", op.request.Session.ID, op.peer.ID)].done == resp.Done
-//@   loop 3 modifies s.sessions[*], s.pendingResponsesSize, gIncArg, gIncRes
+//@   loop 3 modifies s.sessions[*], s.pendingResponsesSize, gIncArg, gIncRes, gThrottleN, gLastEnq
+//@   loop 3 invariant [thr] gLastEnq <= gThrottleN
 //@   loop 3 invariant seedinv(s) && op != nil && sok(s, session)
 //@   loop 3 invariant [keeps] forall(k sessionIDAndPeer, atentry(has(s.sessions, k)) ==> has(s.sessions, k))
 //@   loop 3 invariant [others] forall(k sessionIDAndPeer, atentry(has(s.sessions, k)) && k != mk("sessionIDAndPeer", op.request.Session.ID, op.peer.ID) ==> s.sessions[k].senderI == atentry(s.sessions[k].senderI))
